@@ -399,6 +399,14 @@ def leftoversFail (ev : List Ev) : Bool :=
       | _ => true)
 
 def ok (t : Trace) : Bool := killTotal t.ev && killBound t.ev && killOutcome t.ev && leftoversFail t.ev
+
+/-- on settled traces (every gate released, every timer fired, nothing left to run): an actor on which kill()
+    has returned has ended - the kill is acted on "as soon as the hook in progress (if any) finishes", not when
+    some later message happens to arrive -/
+def killEnds (ev : List Ev) : Bool :=
+  if ev.any (isKillRet ev) then ev.any isJoined else true
+
+def okSettled (t : Trace) : Bool := ok t && killEnds t.ev
 end C06
 
 /-! ### C07 — actors end when stopped or unreferenced, and only then -/
